@@ -62,9 +62,26 @@ def enc_jvalue(v):
     return enc_value(py_value(v))
 
 
-def build_driver(defn, log, tasklog, router=None, bases=None):
-    """a real Driver subclass + instance from the JSON definition, with instrumented handlers"""
+def build_driver(defn, log, tasklog, router=None, bases=None, inherit=None):
+    """a real Driver subclass + instance from the JSON definition, with instrumented handlers.
+    inherit = {"split": k, "warm": bool}: the first k groups are declared by a base driver class and the rest by a class derived
+    from it (how drivers for a family of instruments are written); "warm": the application has also instantiated the base class
+    on its own (without a router) before it instantiates the derived one"""
+    if inherit and 0 < inherit.get("split", 0) < len(defn["groups"]):
+        k = inherit["split"]
+        base = make_class(dict(defn, groups=defn["groups"][:k]), log, tasklog, bases)
+        if inherit.get("warm"):
+            base(router=None)
+        d = make_class(dict(defn, groups=defn["groups"][k:]), log, tasklog, (base,))(router=router)
+        missing = [g["key"] for g in defn["groups"] if d.get_group(g["key"]) is None]
+        if missing:
+            raise BrokenDefinition("driver %s built by subclassing lacks the groups %s its classes define" % (defn["name"], missing))
+        return d
     return make_class(defn, log, tasklog, bases)(router=router)
+
+
+class BrokenDefinition(Exception):
+    """the library did not build the driver its class definitions describe (a failure of the implementation, not of the harness)"""
 
 
 def make_class(defn, log, tasklog, bases=None):
@@ -245,7 +262,7 @@ def apply_op(d, defn, op):
         d.message_from_client(comp_codec.build(op[1]))
 
 
-def run_ops(defn, ops, extra=None, loghandler=False):
+def run_ops(defn, ops, extra=None, loghandler=False, inherit=None):
     """-> (encoded device, [per-op observation dict])"""
     import logging
 
@@ -279,7 +296,7 @@ def run_ops(defn, ops, extra=None, loghandler=False):
             logging.disable(logging.NOTSET)
             handler = ilog.Handler(router, level=logging.WARNING)
             logging.getLogger("indi").addHandler(handler)
-        d = build_driver(defn, log, tasklog, router)
+        d = build_driver(defn, log, tasklog, router, inherit=inherit)
         dev_line = enc_device(d, defn)
         obs = []
 
@@ -314,7 +331,12 @@ def enc_obs(o):
 
 def run_impl(case, outcome):
     defn, ops = case["def"], case["ops"]
-    d, dev_line, obs = run_ops(defn, ops, loghandler=bool(case.get("loghandler")))
+    try:
+        d, dev_line, obs = run_ops(defn, ops, loghandler=bool(case.get("loghandler")), inherit=case.get("inherit"))
+    except BrokenDefinition as e:
+        return [Query("spec istrue False", "True", "oracle", str(e))]
+    if case.get("inherit"):
+        outcome.count("driver-by-subclassing")
     if case.get("loghandler"):
         outcome.count("with-log-handler")
     for op, o in zip(ops, obs):
@@ -362,6 +384,11 @@ def oracle_queries(case, d, dev_line, obs, outcome):
             view = enc_msg(msg_view(comp_codec.build(op[1])))
             qs.append(Query("spec c12 %s %s %s %s" % (o["before"], view, enc_bool(raised), o["after"]), "True", "oracle",
                             "a client message raised, or changed state it does not validly name"))
+        if "C14" in want:
+            # "plain Read handlers run before a value is published so that they can refresh it": whatever a set* message shows
+            # for an element with a refreshing Read handler is the refreshed value
+            for bad in stale_published(case["def"], o["msgs"]):
+                qs.append(Query("spec istrue False", "True", "oracle", "published without running the element's Read handler first: " + bad))
         if "C14" in want and op[0] in ("a", "s"):
             nset = sum(1 for v in o["views"] if v["tag"].startswith("set"))
             qs.append(Query("spec c14 %s %d %d %d %s %s %s %s %s %d %s" % (
@@ -369,6 +396,35 @@ def oracle_queries(case, d, dev_line, obs, outcome):
                 enc_list(lambda c: c, o["calls"]), enc_list(lambda c: c, o["tasks"]), nset, o["after"]),
                 ("True", "na"), "oracle", "event contract: Write, then default update and publication, then Change"))
     return qs
+
+
+def stale_published(defn, msgs):
+    """descriptions of the elements of published set* messages that do not show what their Read handler supplies"""
+    import base64
+
+    out = []
+    for m in msgs:
+        if not type(m).__name__.startswith("Set"):
+            continue
+        vdefs = [v for g in defn["groups"] for v in g["vectors"] if v["name"] == getattr(m, "name", None)]
+        if len(vdefs) != 1 or vdefs[0]["kind"] == "number":
+            continue
+        vdef = vdefs[0]
+        for child in getattr(m, "children", None) or ():
+            edefs = [e for e in vdef["elements"] if e["name"] == getattr(child, "name", None)]
+            if len(edefs) != 1 or "refresh" not in edefs[0] or edefs[0]["refresh"] is None:
+                continue
+            want = py_value(edefs[0]["refresh"])
+            try:
+                if vdef["kind"] == "blob":
+                    ok = base64.b64decode(child.value or "") == want.binary and (child.format or "") == (want.format or "")
+                else:
+                    ok = child.value == want
+            except Exception:  # noqa
+                ok = False
+            if not ok:
+                out.append("%s.%s shows %r" % (vdef["name"], edefs[0]["name"], getattr(child, "value", None)))
+    return out
 
 
 # --------------------------------------------------------------------------
@@ -419,6 +475,9 @@ def random_definition(rng, name="D", handlers=True, ngroups=None):
             out["change"] = [{"id": next_id(), "async": rng.random() < 0.3} for _ in range(rng.randint(1, 2))]
         if handlers and kind in ("text", "number") and rng.random() < 0.12:
             out["refresh"] = random_value(rng, kind) or {"t": "fresh"}
+        # a BLOB or light element filled in by its Read handler just before it is published (a camera frame fetched on demand)
+        if handlers and kind in ("blob", "light") and rng.random() < 0.2:
+            out["refresh"] = random_value(rng, kind) or ({"b": "c0ffee", "fmt": ".raw"} if kind == "blob" else {"t": "Busy"})
         return out
 
     def next_id():
@@ -743,4 +802,7 @@ def gen_c07(rng, tier):
             ops.append(["c", r])
             if rng.random() < 0.3:
                 ops.extend(random_ops(rng, defn, 2, hostile_rate=0.0))
-        yield {"op": "dev", "def": defn, "ops": ops, "oracles": ["C07"]}
+        case = {"op": "dev", "def": defn, "ops": ops, "oracles": ["C07"]}
+        if len(defn["groups"]) > 1 and rng.random() < 0.5:
+            case["inherit"] = {"split": rng.randint(1, len(defn["groups"]) - 1), "warm": rng.random() < 0.7}
+        yield case
